@@ -50,6 +50,7 @@ def history(seed, length, nhandles=3, nkeys=12, nvals=6):
         size = -1 if writer else (path.stat().st_size if path.exists() else 0)
         ev.append({"ev": e, "h": h, "out": out, "keys": ks, "size": size, **kw})
 
+    broken = False
     try:
         for _ in range(length):
             h = rnd.choice(list(hs))
@@ -90,15 +91,22 @@ def history(seed, length, nhandles=3, nkeys=12, nvals=6):
                         log("new", h, "ok", mode=md)
                     except Exception as e:
                         log("new", h, exc_name(e), mode=md)
-                elif c in ("reopen_a", "reopen_r"):
-                    hs[h].open(c[-1])
-                    log("reopen", h, "ok", mode=c[-1])
-                elif c == "close":
-                    hs[h].close()
-                    log("close", h, "ok")
-                elif c == "pickle":
-                    hs[h] = pickle.loads(pickle.dumps(hs[h]))
-                    log("pickle", h, "ok")
+                elif c in ("reopen_a", "reopen_r", "close", "pickle"):
+                    # these calls have no failure mode in the specification: an exception is logged as the outcome
+                    # (the trace is rejected at this event) and the history ends here
+                    name, kw = ("reopen", {"mode": c[-1]}) if c.startswith("reopen") else (c, {})
+                    try:
+                        if c.startswith("reopen"):
+                            hs[h].open(c[-1])
+                        elif c == "close":
+                            hs[h].close()
+                        else:
+                            hs[h] = pickle.loads(pickle.dumps(hs[h]))
+                    except Exception as e:
+                        ev.append({"ev": name, "h": h, "out": exc_name(e), "keys": [], "size": -1, **kw})
+                        broken = True
+                        break
+                    log(name, h, "ok", **kw)
                 elif c == "put":
                     k, v = rnd.choice(list(keys)), rnd.choice(list(vals))
                     try:
@@ -116,7 +124,7 @@ def history(seed, length, nhandles=3, nkeys=12, nvals=6):
             except Exception as e:   # pragma: no cover  (driver bug)
                 raise
         for h, o in hs.items():
-            if o is not None and not o.closed:
+            if not broken and o is not None and not o.closed:
                 o.close()
                 log("close", h, "ok")
     finally:
